@@ -18,8 +18,8 @@ Record case := {
   c_consts : list Z                             (* MetricEventTotal, MetricEventRt, DefaultStatisticMaxRt *)
 }.
 
-(* the model of the code in /repo: BucketStart stored first, then reset() *)
-Definition geom_of (c : case) : geom := {| g_n := c_n c; g_bl := c_bl c; g_zero_first := false |}.
+(* the model of the code in /repo (after fix 43206f8): reset() first, BucketStart published last *)
+Definition geom_of (c : case) : geom := {| g_n := c_n c; g_bl := c_bl c; g_zero_first := true |}.
 
 Fixpoint run_h (g : geom) (hs : schedule) (c : config) (acc : list Z) : config * list Z :=
   match hs with
